@@ -485,14 +485,18 @@ impl ArrayToBytesCodecTraits for CodecChain {
                 .partial_decoder(input_handle, array_representation, options)?
         };
 
-        for (codec, array_representation) in std::iter::zip(
+        for (codec, (array_representation, encoded_representation)) in std::iter::zip(
             self.array_to_array.iter().rev(),
-            array_representations.iter().rev().skip(1),
+            std::iter::zip(
+                array_representations.iter().rev().skip(1),
+                array_representations.iter().rev(),
+            ),
         ) {
             if Some(codec_index) == self.cache_index {
+                // The input handle yields the encoded representation of this codec
                 input_handle = Arc::new(ArrayPartialDecoderCache::new(
                     &*input_handle,
-                    array_representation.clone(),
+                    encoded_representation.clone(),
                     options,
                 )?);
             }
@@ -628,15 +632,19 @@ impl ArrayToBytesCodecTraits for CodecChain {
                 .await?
         };
 
-        for (codec, array_representation) in std::iter::zip(
+        for (codec, (array_representation, encoded_representation)) in std::iter::zip(
             self.array_to_array.iter().rev(),
-            array_representations.iter().rev().skip(1),
+            std::iter::zip(
+                array_representations.iter().rev().skip(1),
+                array_representations.iter().rev(),
+            ),
         ) {
             if Some(codec_index) == self.cache_index {
+                // The input handle yields the encoded representation of this codec
                 input_handle = Arc::new(
                     ArrayPartialDecoderCache::async_new(
                         &*input_handle,
-                        array_representation.clone(),
+                        encoded_representation.clone(),
                         options,
                     )
                     .await?,
